@@ -39,7 +39,9 @@ def _formula(rng):
     if rng.random() < 0.3:
         rhs = "0 + " + rhs
     if rng.random() < 0.35:
-        eff = rng.choice(["1", "x", "0 + x", "f", "0 + f", "x + z", "x:f", "0 + h", "C(k)", "z:w", "0 + f:h"])
+        eff = rng.choice(["1", "x", "0 + x", "f", "0 + f", "x + z", "x:f", "0 + h", "C(k)", "z:w", "0 + f:h",
+                          # multi-column numeric effects: one label per column of the basis and per group
+                          "0 + poly(x, 2, raw=True)", "bs(x, df=3)", "0 + bs(z, df=4)"])
         grp = rng.choice(["g", "g:h", "g + h", "C(k)", "h", "k", "o", "f:h", "g/h"])
         rhs += f" + ({eff} | {grp})"
     resp = rng.choice(["y", "y", "y", "f", "o", "z"])
